@@ -195,11 +195,75 @@ func genC12LimitWindow(seed uint64, r *rng) *Scenario {
 	return sc
 }
 
+// genC12DeepStack: a call that grows the interpreter's stacks to tens of thousands of slots (a long input on a
+// pattern whose backtracking depth grows with it), surrounded by ordinary calls on the same Regexp: whatever a
+// runner does with very large stacks when it is recycled must not show in later calls.
+func genC12DeepStack(seed uint64, r *rng) *Scenario {
+	const deepCap = 4_000_000
+	sc := &Scenario{Prop: "C12", Seed: seed, SchedSeed: mix64(seed, 12), OpStepCap: deepCap, Mode: "deep-stack", PeriodNs: int64(time.Millisecond)}
+	cfg := vsim.Config{Policy: vsim.Fair, Quantum: 100 + r.i64(900), MaxSteps: 2_000_000_000, PoolMode: []int{vsim.PoolLIFO, vsim.PoolRandom, vsim.PoolLIFO}[r.n(3)], MissProb: uint32(r.n(100))}
+	frags := []string{"a", "b", "ab", "ba", "abc", "a,", "ab "}
+	// (pattern, unit, suffix): inputs that match at the first start position, so the call is linear in the
+	// input while its backtracking stack grows with every iteration
+	shapes := [][3]string{{`(?:(a)|b)*c`, "ab", "c"}, {`(?:ab|ba)*c`, "ab", "c"}, {`(a|b|c)*d`, "abc", "d"}, {`(?:(?:a|b)(?:b|c)?)*$`, "ab", ""},
+		{`(a|ab|abc)*d`, "abc", "d"}, {`(\w+\s?)*$`, "ab ", ""}, {`(?:(a)|(b)|(c)|(ab))*$`, "abc", ""}, {`^(?:ab|b|c)*c`, "ab", ""}}
+	sh := shapes[r.n(len(shapes))]
+	s := ReSpec{Pat: sh[0]}
+	if r.chance(1, 3) {
+		s.HasLimit, s.Limit = true, -1
+	}
+	var deep Op
+	found := false
+	want := 32768 << uint(r.n(3))
+	for rep := 1500 + r.n(1500); rep <= 48000 && !found; rep *= 2 {
+		probe := Op{Kind: OpFindString, In: InputSpec{Unit: sh[1], Rep: rep, Suf: sh[2]}, N: -1, TimeoutNs: -1}
+		ref := c13Reference(s, &probe, deepCap)
+		if ref.err != "" || ref.capped {
+			break
+		}
+		if ref.peak >= want || rep*2 > 48000 && ref.peak >= 32768 {
+			deep, found = probe, true
+		}
+	}
+	if !found {
+		return sc
+	}
+	sc.Res = []ReSpec{s}
+	small := &pat{Frags: append(frags, "c", "d", "xxabcxx", "!")}
+	cl := Client{Cost: int64(200 + r.n(800))}
+	addSmall := func(n int) {
+		for ; n > 0; n-- {
+			op := genOp(r, 0, small, false)
+			if v := pristine(s, &op, deepCap); !v.capped {
+				cl.Ops = append(cl.Ops, op)
+			}
+		}
+	}
+	addSmall(r.n(3))
+	for k := 1 + r.n(2); k > 0; k-- {
+		d := deep
+		d.Kind = []int{OpFindString, OpMatchString, OpFindAllString, OpReplace, OpMatchRunes, OpSplit}[r.n(6)]
+		d.Repl = repls[r.n(len(repls))]
+		if v := pristine(s, &d, deepCap); !v.capped {
+			cl.Ops = append(cl.Ops, d)
+		}
+		addSmall(1 + r.n(4))
+	}
+	sc.Clients = []Client{cl}
+	cfg.Alphabet = alphabetOf(sc)
+	sc.Cfg = cfg
+	nameOps(sc)
+	return sc
+}
+
 // genC12 builds one call history for one client (DESIGN §3 C12).
 func genC12(seed uint64, tier string) *Scenario {
 	r := newRng(seed)
 	if r.chance(1, 8) {
 		return genC12LimitWindow(seed, r)
+	}
+	if r.chance(1, 12) {
+		return genC12DeepStack(seed, r)
 	}
 	sc := &Scenario{Prop: "C12", Seed: seed, SchedSeed: mix64(seed, 12), OpStepCap: scriptOpCap}
 	p := int64(time.Millisecond)
